@@ -151,10 +151,12 @@ class Model(object):
         self.cur = None
         self.floating = []
         self.fault_dates = set()
+        self.started = set()                 # actors whose body began (on_exit callback registered)
 
     # -- helpers ---------------------------------------------------------------------------------------------------------
     def report(self, key, what):
-        self._report(key, what + " [at log line: %s]" % (self.cur.raw if self.cur else "?"))
+        # the injection path is part of the witness class: N none, A actor, T timer, M maestro outside Engine::run, P profile
+        self._report("%s:inj=%s" % (key, self.run["path"]), what + " [at log line: %s]" % (self.cur.raw if self.cur else "?"))
         raise Stop()
 
     def op(self, a, k):
@@ -325,6 +327,12 @@ class Model(object):
             self.report("C10:state-change-not-applied:%s" % ("host" if res[0] == "H" else "link"),
                         "after turn_%s() of %s%d is_on() says %s and no on_onoff signal was observed" % (
                             "on" if self.on[res] is False else "off", res[0], res[1], ev.f[3]))
+
+    def ev_B(self, ev):
+        a = int(ev.f[0])
+        if a in self.killed:
+            self.dead_progress(a, ev)
+        self.started.add(a)
 
     def ev_DL(self, ev):
         self.deadlock = True
@@ -566,6 +574,11 @@ class Model(object):
                 o.ended = True
             return
         if not doomed:
+            done = [o for o in objs if o.type == "comm" and o.ended and self.off_resource_of(o) is not None]
+            if done:
+                o = done[0]
+                self.report("C10:completed-comm-reported-failed:%s:%s" % (kind, exc), "%s had completed (its other side was told so) before %s%d went off, "
+                            "yet %s() by actor %d at %.17g throws %s for it" % ((self.desc(o),) + self.off_resource_of(o) + (kind, a, ev.clk, exc)))
             self.report("C10:spurious-failure:%s:%s" % (kind, exc), "actor %d %s() threw %s at %.17g but no resource used by %s is or was off" % (
                 a, kind, exc, ev.clk, "; ".join(self.desc(o) for o in objs) or "it"))
         if exc not in set(FAMILY[o.type] for o in doomed):
@@ -609,7 +622,7 @@ class Model(object):
     def finish(self):
         self.cur = None
         for a, kd in sorted(self.killed.items()):
-            if kd["x"] == 0:
+            if kd["x"] == 0 and a in self.started:
                 self.report("C10:on-exit-missing", "actor %d was on H%d which went off at %.17g; its on_exit callback never ran" % (a, self.host[a], kd["date"]))
         for (a, k), e in sorted(self.expect.items()):
             if not self.alive[a]:
